@@ -22,7 +22,7 @@ pub fn check(tier: Tier) -> Check {
         // Receive Maximum 1: locally refused publishes are among the pending operations
         parts.push(Part::new("C14/drop", json!({"depth": d, "r": 1}), k, tier.pick(40, 600)));
     }
-    parts.push(Part::new("C14/drop", json!({"depth": tier.pick(4, 6), "r": 1, "flavour": 1}), 1, tier.pick(40, 600)));
+    parts.push(Part::new("C14/drop", json!({"depth": tier.pick(4, 6), "r": 1, "flavour": 1, "own_rm": 20}), 1, tier.pick(40, 600)));
     // a Maximum Packet Size in force: some requests are refused while the context lives; once it is
     // gone every request fails with ContextExited, whatever its size
     parts.push(Part::new("C14/drop", json!({"depth": tier.pick(4, 5), "r": 0, "m": 12}), 1, tier.pick(40, 600)));
